@@ -71,7 +71,16 @@ pub fn queries(r: &mut Rng, out: &mut String, b: &str, nkeys: usize) {
 /// one random C01 mutator on slot `b0` (no `dump`); shared with the operand builders of other profiles
 pub fn mutator(r: &mut Rng, out: &mut String, nkeys: usize) {
     {
-        match r.below(24) {
+        match r.below(27) {
+            24..=26 => {
+                // a sparse chunk (no two adjacent values) big enough to be a bitset, or just below the limit
+                let base = (key(r, nkeys) as u64) << 16;
+                let step = *r.pick(&[2u64, 3, 5, 7, 11, 13]);
+                let count = (*r.pick(&[4000u64, 4096, 4097, 4100, 4500, 5000, 6000])).min(65535 / step);
+                let start = base + r.below(step);
+                let count = count.min((base + 65536 - start + step - 1) / step);
+                sparse_ops(out, "b0", "b9", start, step, count)
+            }
             0..=4 => writeln!(out, "insert b0 {}", value(r, nkeys)).unwrap(),
             5..=6 => writeln!(out, "remove b0 {}", value(r, nkeys)).unwrap(),
             7..=10 => {
@@ -118,10 +127,10 @@ pub fn mutator(r: &mut Rng, out: &mut String, nkeys: usize) {
                 }
             }
             18..=19 => {
-                let n = match r.below(8) {
+                let n = match r.below(10) {
                     0 => 0,
                     1 => 1,
-                    2 => r.below(100),
+                    2 | 8 | 9 => r.below(100),
                     3 => *r.pick(&[4095u64, 4096, 4097, 65535, 65536, 65537]),
                     4 => r.below(200000),
                     5 => 1u64 << 40,
@@ -155,6 +164,26 @@ pub fn gen_case(r: &mut Rng, out: &mut String, with_queries: bool) {
         writeln!(out, "dump b0").unwrap();
         if with_queries && r.chance(1, 3) {
             queries(r, out, "b0", nkeys);
+        }
+    }
+    if r.chance(1, 12) {
+        // a range spanning three or more chunks whose interior chunk is (usually) already populated; kept for the
+        // end of the case because the value then holds > 65536 elements
+        let k0 = *r.pick(&[0u64, 0, 0xFFFD]);
+        writeln!(out, "insert b0 {}", ((k0 + 1) << 16) + low(r) as u64).unwrap();
+        if r.chance(1, 2) {
+            let (lo, hi) = range_tokens(r, 1, 1);
+            let _ = (lo, hi);
+            writeln!(out, "insert_range b0 in:{} in:{}", ((k0 + 1) << 16) + 100, ((k0 + 1) << 16) + 100 + range_len(r).min(60000)).unwrap();
+        }
+        let s = (k0 << 16) + low(r) as u64;
+        let e = ((k0 + 2) << 16) + low(r) as u64;
+        writeln!(out, "insert_range b0 in:{} in:{}", s, e).unwrap();
+        writeln!(out, "dump b0").unwrap();
+        writeln!(out, "insert_range b0 in:{} in:{}", s, e).unwrap();
+        if r.chance(1, 2) {
+            writeln!(out, "remove_range b0 in:{} in:{}", s + 1, e - 1).unwrap();
+            writeln!(out, "dump b0").unwrap();
         }
     }
     if with_queries {
